@@ -139,7 +139,11 @@ def resolve(qual):
             continue
         obj = mod
         for p in parts[i:]:
-            obj = getattr(obj, p)
+            obj = getattr(obj, p) if not isinstance(obj, type) else obj.__dict__.get(p, getattr(obj, p))
+        if isinstance(obj, property):
+            obj = obj.fget
+        if isinstance(obj, (staticmethod, classmethod)):
+            obj = obj.__func__
         return obj
     raise ImportError(qual)
 
@@ -223,6 +227,10 @@ def run_contract(rt, cc, func, args_by_name, call=None):
                 out["pre_failed"].append(cl.name)
         except Exception as e:
             out["errors"].append("requires %s: %r" % (cl.name, e))
+            out["pre_ok"] = False  # a precondition that cannot be evaluated on this input does not hold for it
+            out["pre_failed"].append(cl.name)
+    if not out["pre_ok"]:
+        return out
     ens = [(cl, compile_clause(cl.expr)) for cl in cc.ensures]
     rai = [(exc, cl, compile_clause(cl.expr)) for exc, cl in cc.raises_iff]
     olds = {}
@@ -360,8 +368,14 @@ def default_sample(cc, rng):
             args[p] = resolve(cc.options.get("replay_" + p, ty[5:]))
         elif isinstance(ty, dict) and "@attrs" in ty:
             import types as _t
-            args[p] = _t.SimpleNamespace(**{k: (int(rng.integers(0, 12)) if t == "int" else float(rng.integers(1, 9)) / 2.0)
-                                            for k, t in ty["@attrs"].items()})
+
+            def gen_a(t):
+                if isinstance(t, (list, tuple)):
+                    return tuple(gen_a(x) for x in t)
+                return int(rng.integers(0, 12)) if t == "int" else float(rng.integers(1, 9)) / 2.0
+            args[p] = _t.SimpleNamespace(**{k: gen_a(t) for k, t in ty["@attrs"].items()})
+        elif ty == "opaque":
+            args[p] = None
         elif isinstance(ty, (dict, list, tuple)):
             def gen(t):
                 if isinstance(t, dict):
